@@ -144,6 +144,9 @@ pub fn classify_xf(x: &Xf) -> &'static str {
         }
         return "xf:nonuniform-scale";
     }
+    if x[0] == 1.0 && x[3] == 1.0 && (x[1] == 0.0) != (x[2] == 0.0) {
+        return "xf:unit-diagonal-shear";
+    }
     let ortho = (x[0] as f64 * x[2] as f64 + x[1] as f64 * x[3] as f64).abs() < 1e-4;
     let n1 = ((x[0] as f64).powi(2) + (x[1] as f64).powi(2)).sqrt();
     let n2 = ((x[2] as f64).powi(2) + (x[3] as f64).powi(2)).sqrt();
@@ -164,6 +167,7 @@ fn rot(deg: f32) -> (f32, f32) {
 /// invertible transforms of all classes, translation within [-tmax, tmax]
 pub fn xf_invertible(tmax: f32) -> BoxedStrategy<Xf> {
     let tr = move || prop_oneof![Just(0.0f32), (-8i32..=8).prop_map(|v| v as f32), (-tmax..tmax)];
+    let ent = || prop_oneof![2 => Just(0.0f32), 3 => Just(1.0f32), 1 => Just(-1.0f32), 3 => (-2.0f32..2.0)];
     prop_oneof![
         2 => Just(IDENT),
         2 => ((-8i32..=8), (-8i32..=8)).prop_map(|(x, y)| [1., 0., 0., 1., x as f32, y as f32]),
@@ -178,6 +182,11 @@ pub fn xf_invertible(tmax: f32) -> BoxedStrategy<Xf> {
             let m = [sx, sh * sy, 0.0, sy];
             [m[0] * c + m[1] * -sn, m[0] * sn + m[1] * c, m[2] * c + m[3] * -sn, m[2] * sn + m[3] * c, x, y]
         }),
+        // lattice: every linear entry independently 0, 1, -1 or arbitrary, so that each exact coincidence a
+        // special-cased fast path could test for (unit diagonal with one shear term, swapped axes, ...) occurs
+        // (kept as well conditioned as the other classes: |det| >= 0.05)
+        2 => (ent(), ent(), ent(), ent(), tr(), tr()).prop_map(|(a, b, c, d, x, y)| [a, b, c, d, x, y]).prop_filter("conditioned", |x| xf_det(x).abs() >= 0.05),
+        1 => (any::<bool>(), -2.0f32..2.0, tr(), tr()).prop_map(|(up, k, x, y)| if up { [1., k, 0., 1., x, y] } else { [1., 0., k, 1., x, y] }),
     ]
     .prop_filter("invertible", |x| xf_det(x).abs() > 1e-3)
     .boxed()
@@ -190,6 +199,9 @@ pub fn xf_singular() -> BoxedStrategy<Xf> {
         (0.5f32..2.0, -4.0f32..4.0).prop_map(|(s, x)| [s, 0., 0., 0., x, 0.]),
         (0.5f32..2.0).prop_map(|s| [0., 0., 0., s, 0., 0.]),
         (0.5f32..2.0, 0.5f32..2.0).prop_map(|(a, b)| [a, b, 2.0 * a, 2.0 * b, 1., 1.]),
+        // rank-one and rank-zero matrices made of exact 0/1 entries
+        (prop::sample::select(vec![[1.0f32, 1., 1., 1.], [0., 1., 0., 1.], [1., 0., 1., 0.], [0., 1., 0., 0.], [0., 0., 1., 0.], [1., 0., 0., 0.], [0., 0., 0., 1.], [1., -1., -1., 1.]]), -4i32..=4, -4i32..=4)
+            .prop_map(|(m, x, y)| [m[0], m[1], m[2], m[3], x as f32, y as f32]),
     ]
     .boxed()
 }
@@ -255,7 +267,8 @@ pub fn gradient_src(ctx: &Ctx, ext: f32) -> BoxedStrategy<SrcSpec> {
             // circle 1 strictly inside circle 2
             let r1 = (r2 - 1.0) * fr * 0.9;
             let dmax = (r2 - r1 - 0.5).max(0.0) * 0.95;
-            let d = dmax * fd;
+            // one in five concentric (exactly the same centre), which random offsets never produce
+            let d = if (ang.to_bits() >> 4) % 5 == 0 { 0.0 } else { dmax * fd };
             let (cs, sn) = rot(ang);
             SrcSpec::TwoCircle { stops, spread, x1: x2 + d * cs, y1: y2 + d * sn, r1, x2, y2, r2 }
         }),
